@@ -19,12 +19,17 @@ def harnesses(tier, findings):
     # the acquisition finishes on its own, the client polls the state, then stops / aborts
     hs.append(inst(2, 2, 1, 0, 0, excl=excl, poll=True))
     hs.append(inst(2, 2, 1, 1, 3, excl=excl, poll=True))
+    # the last region before stop is consumed only in part / held and never released by the client
+    hs.append(inst(2, 2, 1, 0, 4, excl=excl))
+    hs.append(inst(2, 2, 1, 1, 4, excl=excl, poll=True))
+    hs.append(inst(2, 2, 1, 0, 5, excl=excl))
+    hs.append(inst(2, 2, 1, 1, 5, excl=excl))
     if tier == "thorough":
         # every combination of source-before/after-client, stop/abort, client mode, poll-before-stop
         have = set(h.name for h in hs)
         for early in (0, 1):
             for ab in (0, 1):
-                for cl in (0, 1, 2, 3):
+                for cl in (0, 1, 2, 3, 4, 5):
                     for poll in (False, True):
                         h = inst(2, 2, early, ab, cl, excl=excl, poll=poll, timeout=3000)
                         if h.name not in have:
